@@ -54,6 +54,7 @@ Off(p, c) == StartOfMsg(p, c.f) +
                [] c.at = "mid" -> HDR + BodyOf(p, c.f) \div 2
                [] c.at = "last" -> SizeOf(p, c.f) - 1
                [] c.at = "end" -> SizeOf(p, c.f)
+               [] c.at = "b" -> c.k           \* byte offset k inside the message (every split point)
 Ends(p) == {Off(p, p.cuts[j]) : j \in 1..Len(p.cuts)} \cup {TotalOf(p)}
 \* the write that carries the last byte of the handshake message also carries what follows
 Coalesced(p) == Len(p.follow) > 0 /\ HsEnd \notin Ends(p)
